@@ -73,6 +73,27 @@ def debug_clause(ctx, traces):
                 ctx.violation("debug.changed", f"debug node of {c['name']} at step {k} records {got}, the model "
                               f"changed {exp}", case, {})
 
+def session_debug(ctx, traces):
+    """Debug record of every run of a session: exactly the models this run executed, at this run's times
+    (nothing of an earlier run on the same detector)."""
+    for tr in traces:
+        for k, r in enumerate(tr.get("debug_runs") or []):
+            nodes = sorted(map(tuple, r["nodes"]))
+            calls = sorted(map(tuple, r["calls"]))
+            case = {"kind": "exposure", "cfg": tr["cfg"], "meta": tr["meta"]}
+            if nodes != calls:
+                extra = [n for n in nodes if n not in calls]
+                ctx.violation("debug.session", f"run {k} of a session: the debug record lists models {extra[:6]} that this run did "
+                              f"not execute (executed: {calls[:6]}...)", case, {"run": k})
+                break
+            want = dict((c, a) for c, a in r["abs"])
+            bad = [(i, t) for i, t in r["times"] if i in want and want[i] != t]
+            if bad:
+                ctx.violation("debug.session", f"run {k} of a session: debug node time_idx_{bad[0][0]} announces time {bad[0][1]} "
+                              f"ticks, the readout was at {want[bad[0][0]]} ticks", case, {"run": k})
+                break
+
+
 def run(ctx):
     _, cases = P.family(ctx, "writers", note="seven writers (photon charge pixel signal image scene data) x per-step "
                                               "write masks x steps x mode, dirty prior")
@@ -115,6 +136,7 @@ def run(ctx):
     # sessions: every run on re-used objects returns its own faithful record
     traces = P.sessions(ctx, [], ctx.pick(40, 800), kinds=("obs", "set", "cset", "add"))
     P.validate(ctx, traces, "sessions")
+    session_debug(ctx, traces)
     from harness import hooks
     hooks.check(ctx)
     ctx.assumptions += ["bucket arrays are level + fixed ramp; the result is read back through its y/x/time labels",
@@ -128,6 +150,13 @@ def replay(ctx, payload):
         return hooks.replay(ctx, payload)
     from harness import runner
     meta = case.get("meta", {})
+    if meta.get("session"):
+        tr = runner.record_session(cfg=case["cfg"], ops=meta["session"], construction=meta.get("construction", "python"),
+                                   debug=meta.get("debug", False), hier=meta.get("hier", False),
+                                   kind=meta.get("detector", "ccd"))
+        session_debug(ctx, [tr])
+        P.validate(ctx, [tr], "replay")
+        return ctx.finish()
     tr = runner.record_exposure(cfg=case["cfg"], construction=meta.get("construction", "python"),
                                 debug=meta.get("debug", False), hier=meta.get("hier", False),
                                 extra=meta.get("extra"), kind=meta.get("detector", "ccd"))
